@@ -46,7 +46,8 @@ NewTaint(e) ==
 
 PropOf(e) ==
   CASE e.a = "GetAssignments" -> P_GetAssignments(e.args.srv, e.args.c, e.args.e)
-    [] e.a = "Join" -> P_Join(e.args.c, ToSet(e.args.streams))
+    [] e.a = "Join" -> IF obs'.err = "precondition" THEN SameGroups ELSE P_Join(e.args.c, ToSet(e.args.streams))
+    [] e.a = "CreateGroup" /\ obs'.err = "precondition" -> SameGroups
     [] e.a = "CreateGroup" -> \A v \in Servers : gs'[v].exists /\ (~gs[v].exists => Members(gs'[v]) = {e.args.c})
     [] e.a = "Leave" -> P_Leave(e.args.c)
     [] e.a = "RunSD" -> P_RunSD(e.args.srv, SD(e))
@@ -57,8 +58,8 @@ PropOf(e) ==
 ImplOf(e) ==
   CASE e.a = "CreateStream" -> DoCreateStream(e.args.s, e.args.n)
     [] e.a = "DeleteStream" -> DoDeleteStream(e.args.s)
-    [] e.a = "CreateGroup" -> DoCreateGroup(e.args.c, ToSet(e.args.streams), e.args.coord)
-    [] e.a = "Join" -> DoJoin(e.args.c, ToSet(e.args.streams))
+    [] e.a = "CreateGroup" -> DoProposeCreateGroup(e.args.c, ToSet(e.args.streams), e.args.coord)
+    [] e.a = "Join" -> DoProposeJoin(e.args.c, ToSet(e.args.streams))
     [] e.a = "Leave" -> DoLeave(e.args.c)
     [] e.a = "ChangeCoordinator" -> DoChangeCoordinator(e.args.coord)
     [] e.a = "RunSD" -> DoRunSD(e.args.srv, SD(e))
